@@ -207,7 +207,8 @@ BUILTINS['any'] = any
 BUILTINS['all'] = all
 for _t in (str, bytes, bytearray):
     for _m in ('endswith', 'startswith', 'strip', 'lstrip', 'rstrip', 'lower', 'upper', 'title', 'swapcase', 'find', 'index',
-               'count', 'split', 'replace', 'isdigit', 'isalpha', 'isspace'):
+               'count', 'split', 'rsplit', 'partition', 'rpartition', 'splitlines', 'replace', 'isdigit', 'isalpha', 'isalnum', 'isspace',
+               'isupper', 'islower', 'rfind', 'rindex', 'zfill', 'ljust', 'rjust', 'center', 'casefold', 'capitalize'):
         METHODS.add((_t, _m))
 
 
